@@ -358,6 +358,9 @@ func Run(target string, data []byte) (res *Result) {
 	case "keys":
 		if k, err := crypto.UnmarshalPublicKey(data); err == nil {
 			ok.Decoded = true
+			if protoTruncated(data) {
+				return viol("accepts-truncated/keys", "UnmarshalPublicKey accepted a key message that ends in the middle of a field")
+			}
 			b, merr := crypto.MarshalPublicKey(k)
 			if merr != nil {
 				return viol("reencode/keys", "%v", merr)
@@ -377,6 +380,9 @@ func Run(target string, data []byte) (res *Result) {
 		}
 		if k, err := crypto.UnmarshalPrivateKey(data); err == nil {
 			ok.Decoded = true
+			if protoTruncated(data) {
+				return viol("accepts-truncated/keys", "UnmarshalPrivateKey accepted a key message that ends in the middle of a field")
+			}
 			if _, serr := k.Sign([]byte("x")); serr != nil {
 				return viol("unusable-key/keys", "%v", serr)
 			}
@@ -542,6 +548,10 @@ func Seeds(target string) [][]byte {
 			valid = append(valid, append(append([]byte{0x08}, uv(kt)...), append([]byte{0x12, 0x20}, rawPub...)...),
 				append(append([]byte{0x08}, uv(kt)...), append([]byte{0x12, 0x40}, rawPriv...)...))
 		}
+		// the genuine key data behind a length that announces more than the message holds
+		for _, over := range []int{1, 2, 31, 32, 95} {
+			valid = append(valid, append([]byte{0x08, 0x01, 0x12, byte(32 + over)}, rawPub...), append([]byte{0x08, 0x01, 0x12, byte(64 + over%60)}, rawPriv...))
+		}
 		for _, n := range []int{0, 1, 31, 33, 34, 63, 64, 65, 96, 128} {
 			kd := append(append([]byte{}, rawPriv...), bytes.Repeat([]byte{0}, 64)...)[:n]
 			pd := append(append([]byte{}, rawPub...), bytes.Repeat([]byte{0}, 96)...)[:n]
@@ -557,6 +567,58 @@ func Seeds(target string) [][]byte {
 		valid = append(valid, pb, kb, pp, pubp)
 	}
 	return append(valid, hostile...)
+}
+
+// protoTruncated walks a protobuf message field by field and reports whether it ends in the middle of a field: an
+// unterminated varint, a fixed-width value or a length-delimited value that announces more bytes than remain. Messages
+// the walk cannot judge (groups, field number 0) are reported as not truncated.
+func protoTruncated(b []byte) bool {
+	for len(b) > 0 {
+		tag, n := binary.Uvarint(b)
+		if n == 0 {
+			return true
+		}
+		if n < 0 || tag>>3 == 0 {
+			return false
+		}
+		b = b[n:]
+		switch tag & 7 {
+		case 0:
+			_, vn := binary.Uvarint(b)
+			if vn == 0 {
+				return true
+			}
+			if vn < 0 {
+				return false
+			}
+			b = b[vn:]
+		case 1:
+			if len(b) < 8 {
+				return true
+			}
+			b = b[8:]
+		case 2:
+			l, ln := binary.Uvarint(b)
+			if ln == 0 {
+				return true
+			}
+			if ln < 0 {
+				return false
+			}
+			if uint64(len(b)-ln) < l {
+				return true
+			}
+			b = b[ln+int(l):]
+		case 5:
+			if len(b) < 4 {
+				return true
+			}
+			b = b[4:]
+		default:
+			return false
+		}
+	}
+	return false
 }
 
 // refStreamHeader is an independent parse of a stream establish header: uvarint length, then a protobuf message whose
